@@ -37,6 +37,10 @@ def run_tables(rep, exe, cases, label):
         rep.violation("tables:crash", "solver crashed or asserted on a model instance (rc=%s): %s" % (rc, out[-600:]),
                       replay={"cases_file": path})
         return
+    dr = [r for r in recs if r.get("drift")]
+    if dr:
+        rep.cov["factor_layout_drift"] = [r["what"] for r in dr][:3]
+        print("NOTE C14: the factor arrays of the real solver are not those of TridiagAlg.tla any more (solutions are judged on their own): " + dr[0]["what"])
     for r in recs:
         if r.get("fail"):
             key = "tables:%s:n%d:%s" % ("cyclic" if r["cyc"] else "plain", min(r["n"], 4),
